@@ -29,7 +29,7 @@ try:
         print(a.k, c, "rc=%s" % rcc, lines[-2:])
 finally:
     sh("git checkout -- .", a.wt)
-dst = os.path.join("/verif/benign", a.k); os.makedirs(dst, exist_ok=True)
+dst = os.path.join("/verif/benign", os.environ.get("VERIF_BENIGN_PREFIX", "") + a.k); os.makedirs(dst, exist_ok=True)
 for f in ("patch.diff", "README.md"):
     shutil.copyfile(os.path.join(d, f), os.path.join(dst, f))
 old = os.path.join(dst, "meta.json")
